@@ -103,6 +103,8 @@ func (g *Circle) Contains(obj Object) bool {
 			}
 		}
 		return true
+	case *Feature:
+		return g.Contains(other.base)
 	default:
 		// No simple cases, so using polygon approximation.
 		return g.getObject().Contains(other)
